@@ -1005,3 +1005,263 @@ func classDecidesRule(r *Report, p *Prog, rule string) int {
 	}
 	return n
 }
+
+// mergeAppendOwnRule (C15.i MERGE-APPEND-OWN): the merge methods of package
+// maven combine a child's list with its parent's. The result is stored in the
+// child, so it must not be built by appending to the PARENT's slice: append
+// writes into the spare capacity of its first argument, which the parent (and
+// every other child merged with the same parent value) still owns. Every
+// append whose result is stored into a field of the receiver takes as its
+// first argument the receiver's own slice or a fresh one, never a slice read
+// from another parameter.
+func mergeAppendOwnRule(r *Report, p *Prog, rule string) int {
+	n := 0
+	for _, f := range p.Funcs {
+		if f.Pkg == nil || f.Blocks == nil || f.Synthetic != "" || f.Pkg.Pkg.Path() != modPrefix+"maven" {
+			continue
+		}
+		if f.Signature.Recv() == nil || len(f.Params) < 2 {
+			continue
+		}
+		recv := f.Params[0]
+		var fromParam func(v ssa.Value, d int) *ssa.Parameter
+		fromParam = func(v ssa.Value, d int) *ssa.Parameter {
+			if d > 6 {
+				return nil
+			}
+			switch x := v.(type) {
+			case *ssa.Parameter:
+				return x
+			case *ssa.UnOp:
+				if x.Op == token.MUL {
+					return fromParam(x.X, d+1)
+				}
+			case *ssa.FieldAddr:
+				return fromParam(x.X, d+1)
+			case *ssa.Field:
+				return fromParam(x.X, d+1)
+			case *ssa.Slice:
+				return fromParam(x.X, d+1)
+			case *ssa.Alloc:
+				// a spilled by-value parameter
+				for _, ref := range *x.Referrers() {
+					if st, ok := ref.(*ssa.Store); ok && st.Addr == x {
+						if pr, ok := st.Val.(*ssa.Parameter); ok {
+							return pr
+						}
+					}
+				}
+			}
+			return nil
+		}
+		per := 0
+		for _, b := range f.Blocks {
+			for _, in := range b.Instrs {
+				st, ok := in.(*ssa.Store)
+				if !ok {
+					continue
+				}
+				c, ok := st.Val.(*ssa.Call)
+				if !ok {
+					continue
+				}
+				bi, ok := c.Common().Value.(*ssa.Builtin)
+				if !ok || bi.Name() != "append" || len(c.Common().Args) < 1 {
+					continue
+				}
+				if fromParam(st.Addr, 0) != recv {
+					continue
+				}
+				n++
+				per++
+				key := fmt.Sprintf("%s: list #%d stored in the receiver is appended to the receiver's own slice", fnKey(f), per)
+				src := fromParam(c.Common().Args[0], 0)
+				if src != nil && src != recv {
+					r.bad(rule, key, p.pos(c.Pos()), fmt.Sprintf("the list kept in the receiver is built by appending to a slice of the parameter %s: append writes into that slice's spare capacity, which its owner and every other value merged with it share (merging one parent into two children lets the second overwrite the first child's own entries)", src.Name()))
+				} else {
+					r.ok(rule, key, p.pos(c.Pos()), "the first argument of append is the receiver's own slice or a fresh one")
+				}
+			}
+		}
+	}
+	return n
+}
+
+// scopeAtRule (C18.m SCOPE-AT): npm names can begin with @ (the scope), so an
+// index of "@" found in a name@version text is a separator only when it is not
+// 0. Where package resolve (and the schema reader) split at an index of "@",
+// the index is compared in a way that tells 0 from a hit: i > 0, i <= 0, or an
+// explicit i == 0 case. A bare i >= 0 (or i < 0, i != -1) takes the scope's @
+// for the separator: "npm:@scope/real" becomes a requirement on the package "".
+func scopeAtRule(r *Report, p *Prog, rule string) int {
+	n := 0
+	for _, f := range p.Funcs {
+		if f.Pkg == nil || f.Blocks == nil || f.Synthetic != "" {
+			continue
+		}
+		if pp := f.Pkg.Pkg.Path(); pp != modPrefix+"resolve" && pp != modPrefix+"resolve/schema" && pp != modPrefix+"resolve/npm" {
+			continue
+		}
+		per := 0
+		for _, b := range f.Blocks {
+			for _, in := range b.Instrs {
+				c, ok := in.(*ssa.Call)
+				if !ok {
+					continue
+				}
+				name := staticCalleeName(c)
+				if name != "strings.Index" && name != "strings.LastIndex" && name != "strings.IndexByte" && name != "strings.LastIndexByte" {
+					continue
+				}
+				k, ok := c.Common().Args[1].(*ssa.Const)
+				if !ok || k.Value == nil {
+					continue
+				}
+				isAt := false
+				switch k.Value.Kind() {
+				case constant.String:
+					isAt = constant.StringVal(k.Value) == "@"
+				case constant.Int:
+					v, _ := constant.Int64Val(k.Value)
+					isAt = v == '@'
+				}
+				if !isAt {
+					continue
+				}
+				n++
+				per++
+				key := fmt.Sprintf("%s: index of \"@\" #%d tells a leading @ from a separator", fnKey(f), per)
+				tells, any := false, false
+				var visit func(v ssa.Value, d int)
+				visit = func(v ssa.Value, d int) {
+					if d > 3 {
+						return
+					}
+					for _, ref := range *v.Referrers() {
+						switch x := ref.(type) {
+						case *ssa.BinOp:
+							var other ssa.Value = x.Y
+							op := x.Op
+							if x.Y == v {
+								other = x.X
+								// mirror the operator
+								switch op {
+								case token.LSS:
+									op = token.GTR
+								case token.GTR:
+									op = token.LSS
+								case token.LEQ:
+									op = token.GEQ
+								case token.GEQ:
+									op = token.LEQ
+								}
+							}
+							if x.Op == token.ADD || x.Op == token.SUB {
+								continue
+							}
+							ck, ok := other.(*ssa.Const)
+							if !ok || ck.Value == nil || ck.Value.Kind() != constant.Int {
+								continue
+							}
+							cv, _ := constant.Int64Val(ck.Value)
+							any = true
+							switch {
+							case cv == 0 && (op == token.GTR || op == token.LEQ || op == token.EQL || op == token.NEQ):
+								tells = true
+							case cv == 1 && (op == token.GEQ || op == token.LSS):
+								tells = true
+							}
+						case *ssa.Phi:
+							visit(x, d+1)
+						}
+					}
+				}
+				visit(c, 0)
+				switch {
+				case tells:
+					r.ok(rule, key, p.pos(c.Pos()), "the index is compared in a way that tells 0 (the scope's @) from a hit")
+				case !any:
+					r.ok(rule, key, p.pos(c.Pos()), "the index is not tested here")
+				default:
+					r.bad(rule, key, p.pos(c.Pos()), "the index of \"@\" is accepted at position 0, where the @ is the scope of an npm name and not the name@version separator: the alias \"npm:@scope/real\" becomes a requirement on the package \"\" with the requirement \"scope/real\"")
+				}
+			}
+		}
+	}
+	return n
+}
+
+// mergeTaggedRule (C09.n MERGE-TAGGED): a bound that carries prerelease tags
+// admits the prereleases of its own numbers (span.contains). When canon folds
+// one span into another the bound in the middle disappears, and with it what
+// it admitted: [1.0.0-rc:2.0.0-rc] ∪ [2.0.0-rc:3.0.0-rc] = [1.0.0-rc:3.0.0-rc]
+// no longer matches 2.0.0-rc, which both operands match. The step that folds a
+// span away (the store that marks it merged) must therefore be behind a test of
+// the length of a bound's tags; testing only that the tags are EQUAL lets
+// equally tagged spans through.
+func mergeTaggedRule(r *Report, p *Prog, rule string) int {
+	f := p.lookupFn("semver.canon")
+	if f == nil || f.Blocks == nil {
+		r.bad(rule, "semver.canon", "", "function not found: anchor lost")
+		return 0
+	}
+	tagLen := func(v ssa.Value) bool {
+		call, ok := v.(*ssa.Call)
+		if !ok {
+			return false
+		}
+		bi, ok := call.Common().Value.(*ssa.Builtin)
+		if !ok || bi.Name() != "len" {
+			return false
+		}
+		u, ok := call.Common().Args[0].(*ssa.UnOp)
+		if !ok || u.Op != token.MUL {
+			return false
+		}
+		fa, ok := u.X.(*ssa.FieldAddr)
+		if !ok {
+			return false
+		}
+		pt, ok := fa.X.Type().Underlying().(*types.Pointer)
+		if !ok {
+			return false
+		}
+		st, ok := pt.Elem().Underlying().(*types.Struct)
+		return ok && st.Field(fa.Field).Name() == "pre"
+	}
+	n := 0
+	for _, b := range f.Blocks {
+		for _, in := range b.Instrs {
+			st, ok := in.(*ssa.Store)
+			if !ok {
+				continue
+			}
+			ia, ok := st.Addr.(*ssa.IndexAddr)
+			if !ok {
+				continue
+			}
+			k, ok := st.Val.(*ssa.Const)
+			if !ok || k.Value == nil || k.Value.Kind() != constant.Bool || !constant.BoolVal(k.Value) {
+				continue
+			}
+			_ = ia
+			n++
+			key := fmt.Sprintf("%s: fold #%d of a span into another is behind a test of the bounds' tags", fnKey(f), n)
+			guarded := false
+			for _, g := range f.Blocks {
+				if len(g.Instrs) == 0 || g == b || !g.Dominates(b) {
+					continue
+				}
+				if ifi, ok := g.Instrs[len(g.Instrs)-1].(*ssa.If); ok && condDerives(ifi.Cond, 0, tagLen) {
+					guarded = true
+				}
+			}
+			if guarded {
+				r.ok(rule, key, p.pos(st.Pos()), "dominated by a branch on the number of prerelease tags of a bound")
+			} else {
+				r.bad(rule, key, p.pos(st.Pos()), "a span is folded into another without asking whether its bounds carry prerelease tags (only whether the tags are equal): the bound in the middle admitted the prereleases of its own numbers, and the merged span does not (\">=1.0.0-rc <=2.0.0-rc\" ∪ \">=2.0.0-rc <=3.0.0-rc\" no longer matches 2.0.0-rc)")
+			}
+		}
+	}
+	return n
+}
